@@ -1,7 +1,128 @@
-import Nv.Model.C17
-import Nv.Gen.C17
-/-! C17 — obligations on the definitions regenerated from /repo's current source. -/
+import Nv.Model.C17Glue
+import Nv.Props.C17
+/-!
+C17 — obligations on the definitions regenerated from /repo's current source: facts, configuration,
+and the property theorems stated directly on the translated kernels (boundary expression, clamp,
+`SimpleIndex` tail and arms) as the oracle evaluates them (`genNps`, `genSearchIndex`, `genSimple`).
+Shard counts `1 ≤ n < 2^63` (a Go slice cannot be longer; `int(r.numbs)` is then non-negative).
+-/
 namespace Nv.C17
+
 theorem tie_facts : Nv.Gen.C17.facts = Facts.expected := by decide
 theorem tie_cfg_proved : Proved Nv.Gen.C17.cfg := by decide
+
+theorem toInt_ofNat_small (i : Nat) (h : i < 2 ^ 63) : (BitVec.ofNat 64 i).toInt = i := by
+  have hn : (BitVec.ofNat 64 i).toNat = i := by
+    simp only [BitVec.toNat_ofNat]; exact Nat.mod_eq_of_lt (by omega)
+  rw [BitVec.toInt_eq_toNat_of_lt (by omega), hn]
+
+/-- the translated boundary expression is the model's `y·(i+1) mod 2^64` -/
+theorem tie_nps (n i : Nat) (h2 : n < 2 ^ 64) (hi : i < n) : genNps n i = nps Nv.Gen.C17.cfg n i := by
+  unfold genNps nps
+  split
+  · rfl
+  · unfold Nv.Gen.C17.npsAt Nv.Gen.C17.npsY npsRaw yOf M64
+    simp only [BitVec.udiv_eq, BitVec.toNat_mul, BitVec.toNat_udiv, BitVec.toNat_add, BitVec.toNat_ofNat]
+    have e1 : n % 2 ^ 64 = n := Nat.mod_eq_of_lt h2
+    have e2 : i % 2 ^ 64 = i := Nat.mod_eq_of_lt (by omega)
+    have e3 : (i + 1 % 2 ^ 64) % 2 ^ 64 = i + 1 := by
+      have : (1 : Nat) % 2 ^ 64 = 1 := by decide
+      rw [this]; exact Nat.mod_eq_of_lt (by omega)
+    have e4 : 18446744073709551615 % 2 ^ 64 = 2 ^ 64 - 1 := by decide
+    simp only [e1, e2, e3, e4]
+
+/-- the translated clamp is the identity on in-range indices and 0 on `n` -/
+theorem tie_clamp (n i : Nat) (h2 : n < 2 ^ 63) (hi : i ≤ n) : genClamp n i = clampSpec n i := by
+  unfold genClamp clampSpec Nv.Gen.C17.searchClamp
+  have hi' := toInt_ofNat_small i (by omega)
+  have hn' := toInt_ofNat_small n h2
+  by_cases h : i ≥ n
+  · have : (BitVec.ofNat 64 n).sle (BitVec.ofNat 64 i) = true := by
+      rw [BitVec.sle_iff_toInt_le, hi', hn']; omega
+    simp [this, h]
+  · have h1 : (BitVec.ofNat 64 n).sle (BitVec.ofNat 64 i) = false := by
+      apply Bool.eq_false_iff.2
+      rw [Ne, BitVec.sle_iff_toInt_le, hi', hn']; omega
+    have h0 : (BitVec.ofNat 64 i).slt 0#64 = false := by
+      apply Bool.eq_false_iff.2
+      rw [Ne, BitVec.slt_iff_toInt_lt, hi']; simp
+    simp only [h1, h0, Bool.or_self, Bool.false_eq_true, if_false, h]
+    simp only [BitVec.toNat_ofNat]
+    exact Nat.mod_eq_of_lt (by omega)
+
+theorem bsearch_le (p : Nat → Bool) : ∀ (fuel i j : Nat), i ≤ j → bsearch p fuel i j ≤ j := by
+  intro fuel
+  induction fuel with
+  | zero => intro i j h; exact h
+  | succ f ih =>
+    intro i j h
+    simp only [bsearch]
+    split
+    · split
+      · have := ih i ((i + j) / 2) (by omega); omega
+      · exact ih _ _ (by omega)
+    · exact h
+
+/-- `SearchIndex` evaluated through the regenerated kernels is the model's `searchIndex` -/
+theorem tie_search_eq (n x : Nat) (h2 : n < 2 ^ 63) : genSearchIndex n x = searchIndex Nv.Gen.C17.cfg n x := by
+  unfold genSearchIndex searchIndex searchWith
+  have hc := bsearch_congr (fun i => holds Nv.Gen.C17.cfg.searchPred (genNps n i) x)
+    (fun i => holds Nv.Gen.C17.cfg.searchPred (nps Nv.Gen.C17.cfg n i) x) n
+    (fun k hk => by simp only [tie_nps n k (by omega) hk]) n 0 n (Nat.le_refl _)
+  rw [hc]
+  exact tie_clamp n _ h2 (bsearch_le _ n 0 n (Nat.zero_le _))
+
+/-- range + the partition, on what the code computes today -/
+theorem tie_partition (n x : Nat) (h1 : 1 ≤ n) (h2 : n < 2 ^ 63) (hx : x < 2 ^ 64) :
+    genSearchIndex n x < n ∧ x ≤ genNps n (genSearchIndex n x) ∧
+      (0 < genSearchIndex n x → genNps n (genSearchIndex n x - 1) < x) := by
+  have hM : n ≤ M64 := by have : M64 = 2 ^ 64 - 1 := rfl; omega
+  have hp := partition_total Nv.Gen.C17.cfg tie_cfg_proved n x h1 hM hx
+  rw [tie_search_eq n x h2]
+  refine ⟨hp.1, ?_, ?_⟩
+  · rw [tie_nps n _ (by omega) hp.1]; exact hp.2.1
+  · intro h0; rw [tie_nps n _ (by omega) (by omega)]; exact hp.2.2 h0
+
+theorem tie_search_monotone (n x y : Nat) (h1 : 1 ≤ n) (h2 : n < 2 ^ 63) (hxy : x ≤ y) (hy : y < 2 ^ 64) :
+    genSearchIndex n x ≤ genSearchIndex n y := by
+  have hM : n ≤ M64 := by have : M64 = 2 ^ 64 - 1 := rfl; omega
+  rw [tie_search_eq n x h2, tie_search_eq n y h2]
+  exact search_monotone Nv.Gen.C17.cfg tie_cfg_proved n x y h1 hM hxy hy
+
+/-- the translated tail `int(it % r.numbs)` is in `[0, n)` as an `int`, for every `it` -/
+theorem tie_simple_tail (it n : BitVec 64) (h1 : 0 < n.toNat) (h2 : n.toNat < 2 ^ 63) :
+    (Nv.Gen.C17.simpleTail it n).toNat = it.toNat % n.toNat ∧
+      0 ≤ (Nv.Gen.C17.simpleTail it n).toInt ∧ (Nv.Gen.C17.simpleTail it n).toInt < n.toNat := by
+  have hv : (Nv.Gen.C17.simpleTail it n).toNat = it.toNat % n.toNat := by
+    unfold Nv.Gen.C17.simpleTail; exact BitVec.toNat_umod
+  have hlt : it.toNat % n.toNat < n.toNat := Nat.mod_lt _ h1
+  have hi : (Nv.Gen.C17.simpleTail it n).toInt = ((Nv.Gen.C17.simpleTail it n).toNat : Int) :=
+    BitVec.toInt_eq_toNat_of_lt (by omega)
+  exact ⟨hv, by omega, by omega⟩
+
+/-- every arm of today's type switch yields a value (no arm was dropped from the regenerated table) -/
+theorem tie_arms_total (t : KType) (ht : t ∈ simpleArmsExpected) (b : Nat) : (Nv.Gen.C17.simpleArm t b).isSome = true := by
+  cases t <;> simp [simpleArmsExpected] at ht <;> rfl
+
+/-- `SimpleIndex` and `XHashIndex` as computed by the regenerated kernels are in range for every key -/
+theorem tie_route_in_range (n : Nat) (h1 : 1 ≤ n) (h2 : n < 2 ^ 63) (k : Key) (hh : k.hash < 2 ^ 64) :
+    (∀ i, genSimple n k = .idx i → i < n) ∧ (∀ i, genXHash n k = .idx i → i < n) := by
+  have hx : ∀ i, genXHash n k = .idx i → i < n := by
+    intro i h
+    simp only [genXHash] at h
+    split at h
+    · cases h; exact (tie_partition n _ h1 h2 hh).1
+    · cases h
+  refine ⟨?_, hx⟩
+  intro i h
+  simp only [genSimple] at h
+  cases ha : Nv.Gen.C17.simpleArm k.ty k.bits with
+  | none => rw [ha] at h; exact hx i h
+  | some it =>
+    rw [ha] at h
+    cases h
+    have hn : (BitVec.ofNat 64 n).toNat = n := by simp only [BitVec.toNat_ofNat]; exact Nat.mod_eq_of_lt (by omega)
+    have := (tie_simple_tail it (BitVec.ofNat 64 n) (by omega) (by omega)).1
+    rw [this, hn]; exact Nat.mod_lt _ (by omega)
+
 end Nv.C17
